@@ -66,6 +66,13 @@ def Sys.offline (s : Sys) (p : Nat) : Sys :=
   { s with running := s.running.filter (· != p), stopping := s.stopping.filter (· != p),
            suspended := s.suspended.filter (· != p) }
 
+/-- one iteration of the loop in `freeChildren(p)` for child `c`; `rec` is the child's `Shutdown`:
+    `p.UnWatch(c)`, `removeDescendant(p, c)`, then `c.Shutdown()` if `c.IsSuspended() || c.IsRunning()` -/
+def Sys.childStep (rec : Sys → Nat → Option Sys) (p : Nat) (s : Sys) (c : Pid) : Option Sys :=
+  let s := s.unwatch p c.id
+  let s := { s with tree := s.tree.removeDescendant p c.id }
+  if s.suspended.contains c.id || s.isRunning c.id then rec s c.id else some s
+
 /-- `Shutdown(p)`; `none` = out of fuel -/
 def Sys.shutdown : Nat → Sys → Nat → Option Sys
   | 0, _, _ => none
@@ -75,13 +82,8 @@ def Sys.shutdown : Nat → Sys → Nat → Option Sys
       let s1 := ({ s with stopping := p :: s.stopping }).freeWatchees p
       let s2 : Option Sys := match s1.tree.children p with
         | none => some s1                           -- node not found in the tree: no children to free
-        | some cs => cs.foldlM (fun s c =>
-            let s := s.unwatch p c.id
-            let s := { s with tree := s.tree.removeDescendant p c.id }
-            if s.suspended.contains c.id || s.isRunning c.id then Sys.shutdown fuel s c.id else some s) s1
-      match s2 with
-      | none => none
-      | some s2 =>
+        | some cs => cs.foldlM (Sys.childStep (Sys.shutdown fuel) p) s1
+      s2.bind fun s2 =>
         let s3 := { s2 with log := s2.log ++ [Ev.postStop p] }
         some ((s3.freeWatchers p).offline p)
 
@@ -106,31 +108,34 @@ def Sys.spawn (s : Sys) (dw : Nat) (parent p : Pid) : Sys :=
   let t := (s.tree.addNode parent p).1
   { s with tree := t.addWatcher p (mkPid dw), running := p.id :: s.running }
 
-/-- `buildRestartSubtree`: pre-order list of (actor, parent) pairs below `root`, restricted to
-    running-or-suspended descendants whose parent is `root` or another listed descendant -/
-def Sys.restartPlan (s : Sys) : Nat → Nat → List (Nat × Nat)
+/-- `buildRestartSubtree`: pre-order list of (actor, parent, ids the actor watches at snapshot time) below
+    `root`, restricted to running-or-suspended descendants whose parent is `root` or another listed descendant -/
+def Sys.restartPlan (s : Sys) : Nat → Nat → List (Nat × Nat × List Nat)
   | 0, _ => []
   | fuel + 1, x =>
     let ds := ((s.tree.descendants x).getD []).map (·.id)
     let alive := ds.filter (fun d => s.isRunning d || s.suspended.contains d)
     let kids := (alive.filter (fun d => ((s.tree.parent d).map (·.id)) == some x)).eraseDups
-    kids.flatMap (fun k => (k, x) :: s.restartPlan fuel k)
+    kids.flatMap (fun k => (k, x, ((s.tree.watchees k).getD []).map (·.id)) :: s.restartPlan fuel k)
 
-/-- `restartSubtree` for one actor `x` under `parent` (children are handled by the caller, in plan order) -/
-def Sys.restartOne (s : Sys) (fuel dw : Nat) (x parent : Nat) : Option Sys := do
+/-- `restartSubtree` for one actor `x` under `parent` (children are handled by the caller, in plan order);
+    `watched` = what `x` was watching when the restart began: a restart is not an UnWatch, the watches are
+    registered again after the re-attach (no-op for watchees that are gone) -/
+def Sys.restartOne (s : Sys) (fuel dw : Nat) (x parent : Nat) (watched : List Nat) : Option Sys := do
   let since := s.log.length
   let s ← if s.isRunning x then s.shutdown fuel x else some s
   let s := s.drainDeathWatch dw since          -- the model lets death watch run before the re-attach
   let s := { s with running := x :: s.running.filter (· != x), suspended := s.suspended.filter (· != x) }
   let t := (s.tree.addOrAttach (mkPid parent) ⟨x, x, 0⟩).1
-  some { s with tree := t.addWatcher ⟨x, x, 0⟩ (mkPid dw) }
+  let t := t.addWatcher ⟨x, x, 0⟩ (mkPid dw)
+  some { s with tree := watched.foldl (fun t w => t.addWatcher ⟨w, w, 0⟩ ⟨x, x, 0⟩) t }
 
 /-- `PID.Restart` -/
 def Sys.restart (s : Sys) (fuel dw : Nat) (x : Nat) : Option Sys := do
   let plan := s.restartPlan fuel x
   let parent := ((s.tree.parent x).map (·.id)).getD NOS
-  let s ← s.restartOne fuel dw x parent
-  plan.foldlM (fun s e => s.restartOne fuel dw e.1 e.2) s
+  let s ← s.restartOne fuel dw x parent (((s.tree.watchees x).getD []).map (·.id))
+  plan.foldlM (fun s e => s.restartOne fuel dw e.1 e.2.1 e.2.2) s
 
 /-- the PostStop order recorded in a log -/
 def postStops (l : List Ev) : List Nat :=
